@@ -63,6 +63,20 @@ def run(chk, replay=None):
             continue
         cases.append((("synth", spec), ["none"]))
         n4 += 1
+    # a two-resonance four-body topology (ab)(cd) with both resonances carrying spin: both children of the
+    # first node decay further, their helicity frames must turn consistently under a rotation
+    tries = 0
+    while tries < 600:
+        tries += 1
+        spec = U.synth_spec(rng, nfs=4, formalism="helicity", helset="full", maxspin2=2, ntop=1)
+        if spec is None or len(spec["transitions"]) > 40:
+            continue
+        tree = spec["meta"]["tree"]
+        inner = [s_ for s_ in tree if 1 < len(s_) < 4]
+        if len(inner) == 2 and all(len(s_) == 2 for s_ in inner) and all(d["spin2"] >= 2 for n_, d in spec["particles"].items() if n_.startswith("R")) \
+                and all(d["mass"] > 0 for n_, d in spec["particles"].items() if n_.startswith("f")):
+            cases.append((("synth", spec), ["none"]))
+            break
     jobs, meta = [], []
     for spec, als in cases:
         reaction = observe.load(spec)
